@@ -145,12 +145,16 @@ class Rec:
         self.nontrivial = False
         self.ratio = 0.0          # largest loop count / bound seen
         self.calls = 0
+        self.counts = {}          # named counters added to the evidence histogram
 
     def fail(self, label, msg=''):
         self.violations.append((label, str(msg)[:600]))
 
     def tag(self, *names):
         self.tags.extend(names)
+
+    def count(self, name, k=1):
+        self.counts[name] = self.counts.get(name, 0) + k
 
     def check(self, cond, label, msg=''):
         if not cond:
